@@ -72,6 +72,10 @@ PROGRAMS = [
     ('ambiguous include', {'main.asm': ' nop\n#include "dup.asm"\n', 'd1/dup.asm': ' .byte 1\n', 'd2/dup.asm': ' .byte 2\n'}, ('d1', 'd2', 'd3')),
     ('include in main dir too', {'main.asm': ' nop\n#include "m.asm"\n', 'm.asm': ' .byte 7\n', 'd1/x.asm': ' .byte 1\n'}, ('d1', 'd2')),
     ('same file in main dir and d1', {'main.asm': ' nop\n#include "m.asm"\n', 'm.asm': ' .byte 7\n', 'd1/m.asm': ' .byte 8\n'}, ('d1', 'd2')),
+    # the directory of the main file also named as an include directory, first, last or in between
+    ('main dir named too, same file in d1', {'main.asm': ' nop\n#include "m.asm"\n', 'm.asm': ' .byte 7\n', 'd1/m.asm': ' .byte 8\n'}, ('.', 'd1', 'd2')),
+    ('main dir named too, unique files', {'main.asm': ' nop\n#include "m.asm"\n#include "x.asm"\n', 'm.asm': ' .byte 7\n', 'd1/x.asm': ' .byte 1\n', 'd2/y.asm': ' .byte 2\n'},
+     ('.', 'd1', 'd2')),
     ('joined mnemonics', {'main.asm': 'top: ld a, 5 ldx 7 mov.b b nop l movxb\n ldx bar ldx a ld x, KC\n mac y, KD ma\n ld.w y\n w\n jmp top\n'}, ()),
     ('labels symbols zones', {'main.asm': '#define QQ S2\n.memzone zz\nza: .byte QQ, KC\n.memzone zy\nzb: .2byte za, zb\n#ifdef S1\n ldx baz\n#endif\n'
                                           ' .cstr "hi"\n'}, ('d3',)),
@@ -100,7 +104,7 @@ FORMATS_B = ['listing', 'hex', 'intel_hex', 'minhex']
 def meta(tier):
     q = tier == 'quick'
     return {
-        'rule': 'part A: 17 programs (text outside ASCII in comments and strings; nested conditional blocks; enumeration keys that differ only in letter case; several include directories with unique, ambiguous, shadowing, nested, linked and missing files; registers; '
+        'rule': 'part A: 19 programs (the directory of the main file also named as an include directory; text outside ASCII in comments and strings; nested conditional blocks; enumeration keys that differ only in letter case; several include directories with unique, ambiguous, shadowing, nested, linked and missing files; registers; '
                 'mnemonics that are prefixes of one another or contain a period; macros; symbols; zones; several -D definitions, also of one name; directives whose size or target is computed from labels of another zone) x 2 output formats; the default '
                 'schedule and every schedule with one (thorough: two) deviating choice point (all permutations for sets of <=4 elements, '
                 'reversal and every rotation above) must produce identical status, image and pretty print; the default schedule is '
@@ -238,6 +242,7 @@ def spellings(acc, idx, n, ctr0, q):
         'd1': ['=d1', '=./d1', '=d2/../d1'],
         'd2': ['=d2', '=./d2'],
         'd3': ['=d3'],
+        '.': ['=.', '=./', '=d1/..'],
     }
     for pi, (name, files, incdirs) in enumerate(PROGRAMS):
         if not incdirs:
